@@ -304,8 +304,9 @@ def judge(res, cs, cr):
             parents = [snap['picts'].get(str(x), {}) for x in p['parents']]
             now = [fingerprint(x.get('announced')) for x in parents]
             was = before['picts'].get(pid) if before is not None else None
-            rebuilt = (was is None or was['status'] != 'done' or was.get('data', {}).get('items') != p['data']['items'] or pid not in built_from
-                       or (k == 'execute' and ret is True and str(ev.get('pid')) == pid))
+            # the harness document counts result writes: a re-execution is seen even when it reproduces the same content
+            rebuilt = (was is None or was['status'] != 'done' or was.get('doc_writes') != p.get('doc_writes') or was.get('doc') != p.get('doc')
+                       or pid not in built_from)
             if rebuilt:
                 built_from[pid] = now
                 continue
@@ -342,6 +343,11 @@ def additions_check(res, old, new, old_tr, new_tr, pid):
     res.cover('execute:with-user-additions')
     if len(old_add) != len(new_add):
         return [('additions-lost', f"result of {pid} had user additions {[(a['alias'], a['def']) for a in old_add]}, after re-execution {[(a['alias'], a['def']) for a in new_add]}")]
+    # additions keep their identifier when it is free in the new result: match by identifier, the rest by order
+    by_uid = {b['uid']: b for b in new_add}
+    matched = [by_uid.get(a['uid']) for a in old_add]
+    rest = [b for b in new_add if all(m is not b for m in matched)]
+    new_add = [m if m is not None else rest.pop(0) for m in matched]
     umap = {}
     ambiguous = set()        # an old result constituent that stood for several operand constituents which now have different images
     for i in range(min(len(old_tr), len(new_tr))):
